@@ -270,6 +270,11 @@ func c11VersionInput(r *rand.Rand) (string, string) {
 }
 
 func runC11(c *mon.Ctx) {
+	if strings.HasPrefix(c.ReplayCase, coldChildPrefix) {
+		coldStartChild(c)
+		return
+	}
+	coldStart(c, "C11")
 	r := c.Rng
 	s := &c11State{c: c, fold: map[string]string{}}
 	okMod := c06OK(refpath.Module)
